@@ -223,7 +223,7 @@ SE_OUTER = r"""
                     right.data@ =~= Map::<Key, Seq<OutR>>::empty(),
                     n0 == old(buffer)@.len(), buffer@.len() >= n0 && buffer@.take(n0) =~= old(buffer)@,
                     forall|i: int, j: int| 0 <= i < j < d0.len() ==> (#[trigger] d0[i]).0 != (#[trigger] d0[j]).0,
-                    forall|k: Key| padded_right(make_pair, expected(d0, left.keys@, d0.len() - __d@.len(), k), #[trigger] proj(buffer@.skip(n0), k)),
+                    forall|k: Key| padded_right(make_pair, expected(d0, left.keys@, d0.len() - __d@.len(), k), #[trigger] proj(buffer@.skip(n0), k)),   // #obl:side_ended.each_drained_entry_padded_once_unless_key_seen
                 decreases __d@.len(),
 """
 SE_INNER = r"""
@@ -610,19 +610,20 @@ def build(x):
                 }
             }''')
     se = x.method(F, 'JoinLocalHash', 'side_ended')
-    se.sub('V-ITER', r'for \(key, right\) in right\.data\.drain\(\) \{', 'let mut __d = right.data.drain_all(); /*@drained*/ while __d.len() > 0 { let (key, right) = __d.remove(0); /*@entry*/',
+    se.sub('V-ITER', r'for \(key, (mut )?right\) in right\.data\.drain\(\) \{', r'let mut __d = right.data.drain_all(); /*@drained*/ while __d.len() > 0 { let (key, \1right) = __d.remove(0); /*@entry*/',
            detail='`for (k, v) in map.drain() {` -> drain_all() (entries in arbitrary order) + pop-front loop', must=True)
     se.sub('V-ITER', r'for rhs in right \{', 'let mut __r = right; /*@values*/ while __r.len() > 0 { let rhs = __r.remove(0); /*@value*/',
-           detail='`for x in vec {` (by value) -> pop-front loop', must=True)
+           detail='`for x in vec {` (by value) -> pop-front loop')
+    has_inner = len(se.loops()) >= 2   # hints of the inner loop only exist if the loop does
     se.add_spec(SIDE_ENDED_SPEC)
     se.insert_at_body_start('\n        let ghost n0 = buffer@.len() as int;')
     se.insert_after('/*@drained*/', ' let ghost d0 = __d@; let ghost m0 = old(right).data@; proof { assert(buffer@.skip(n0) =~= Seq::<(Key, OuterJoinTuple<Out1, Out2>)>::empty()); }')
     se.add_loop_spec(1, SE_OUTER)
     se.insert_after('/*@entry*/', ' let ghost b1 = buffer@; let ghost g = d0.len() - __d@.len() - 1; proof { assert(d0.skip(g)[0] == d0[g]); assert(d0.skip(g).skip(1) =~= d0.skip(g + 1)); }')
-    se.insert_after('/*@values*/', ' let ghost v0 = __r@; let ghost mut j: nat = 0; proof { lemma_expected_fresh(d0, left.keys@, g, g); assert(proj(b1.skip(n0), key).len() == 0); assert(v0.take(0) =~= Seq::<OutR>::empty()); }')
-    se.add_loop_spec(2, SE_INNER)
-    se.insert_after('/*@value*/', ' let ghost bb = buffer@; proof { assert(v0.skip(j as int)[0] == v0[j as int]); assert(v0.skip(j as int).skip(1) =~= v0.skip(j as int + 1)); }')
-    se.insert_after_stmt('buffer.push_back((key.clone(), make_pair(None, Some(rhs))))', r"""
+    if has_inner: se.insert_after('/*@values*/', ' let ghost v0 = __r@; let ghost mut j: nat = 0; proof { lemma_expected_fresh(d0, left.keys@, g, g); assert(proj(b1.skip(n0), key).len() == 0); assert(v0.take(0) =~= Seq::<OutR>::empty()); }')
+    if has_inner: se.add_loop_spec(2, SE_INNER)
+    if has_inner: se.insert_after('/*@value*/', ' let ghost bb = buffer@; proof { assert(v0.skip(j as int)[0] == v0[j as int]); assert(v0.skip(j as int).skip(1) =~= v0.skip(j as int + 1)); }')
+    if has_inner: se.insert_after_stmt('buffer.push_back((key.clone(), make_pair(None, Some(rhs))))', r"""
                         proof {
                             let x = buffer@.last();
                             assert(buffer@.skip(n0) =~= bb.skip(n0).push(x));
@@ -631,7 +632,7 @@ def build(x):
                             assert(v0.take(j as int + 1) =~= v0.take(j as int).push(v0[j as int]));
                             j = j + 1;
                         }""")
-    se.insert_after_loop(2, r"""
+    if has_inner: se.insert_after_loop(2, r"""
                     proof {
                         assert(v0.take(j as int) =~= v0);
                         assert forall|k: Key| padded_right(make_pair, expected(d0, left.keys@, g + 1, k), #[trigger] proj(buffer@.skip(n0), k)) by {
